@@ -21,6 +21,7 @@ func init() {
 			"D9 guarded-by table (candidates inferred statistically with `verifcheck -guarded`, each row confirmed by reading every access): the listed fields are accessed in their struct's methods only with the struct's mutex held (write-held for writes), directly or because every chain of callers holds it; this found three genuine races (580bb20, ff23628, 74fdcd6). " +
 			"D10 a snapshot's points leave the cache only after their file is installed; a hinted-handoff segment that stops being the tail has flushed its buffered blocks (shared with C01/C09, C04). D3 also: every field lookup tested for nil on the shard write path compares the field's type. " +
 			"D11 the batch shared by the owner goroutines is passed on only as a fresh copy to callees that store into it; D12 WaitGroup.Wait is never called while holding a mutex that a goroutine of that group acquires; D13 create-if-absent functions re-check under the write lock; D14 a receive from a pointer channel that a sibling method closes tests the pointer (or the ok flag) first. " +
+			"D15 no re-entrant acquisition: while a method holds a mutex field of its own receiver it does not call a method on the same receiver variable that (directly or through further calls on its receiver) acquires the same field - sync mutexes are not re-entrant, and a recursive read lock deadlocks as soon as a writer queues up in between; this is the same-object part of the lock order that D2 must skip, and it found three genuine deadlocks (cf90be7, 1f18a5a, 54b97dc); thorough sweeps every package. " +
 			"NOT decided: freedom from data races under every schedule (no sound alias analysis is available: locks are identified by access path and class), visibility of acknowledged writes to reads, liveness.",
 		RuleText:    "obligation = (rule, function, lock key | site); exact per-path lock balance exploration (no merging); lock-class graph with callee summaries; outcome/def facts for check-then-act; per-event held-lock sets for captured-variable writes",
 		Assumptions: append([]string{"locks are identified by the text of their receiver expression within a function and by (struct type, field) across functions; two instances of one class are not distinguished"}, commonAssumptions...),
@@ -377,6 +378,25 @@ func runC19(c *core.Ctx) {
 	c.Clause("D13", func() { runDoubleCheckedInsert(c, lockPkgs, 1) })
 
 	c.Clause("D14", func() { runClosedChannelReceives(c, lockPkgs, 2) })
+
+	c.Clause("D15", func() {
+		runNoReentrantLock(c, lockPkgs, 100)
+		if c.Tier == "thorough" {
+			// every other package of the repository
+			in := map[string]bool{}
+			for _, r := range lockPkgs {
+				in[r] = true
+			}
+			var rest []string
+			for rel := range c.P.ByPath {
+				if !in[rel] {
+					rest = append(rest, rel)
+				}
+			}
+			sort.Strings(rest)
+			runNoReentrantLock(c, rest, 0)
+		}
+	})
 
 	c.Clause("D12", func() {
 		runNoWaitUnderLock(c, lockPkgs, 3)
